@@ -150,14 +150,23 @@ def run_uncached(repo, wanted, reg):
             if m:
                 e['solver_s'] = float(m.group(1))
             if st == 'failed':
-                # second pass for this harness alone: concrete playback gives the failing input
+                # second pass for this harness alone: Kani writes its counterexample as a unit test into the scratch copy of the
+                # source (concrete playback, in place) and that test is then RUN against the real code (cargo kani playback):
+                # the replay reproduces the violation iff the generated test fails
                 try:
-                    p2 = subprocess.run(['cargo', 'kani', '-Z', 'concrete-playback', '--concrete-playback=print', '--output-format', 'terse', '--harness', h['name']],
-                                        cwd=d, capture_output=True, text=True, env=env, timeout=1200)
-                    t2 = p2.stdout + p2.stderr
-                    cex = re.findall(r'(?s)```\s*(?:rust)?(.*?)```', t2)
-                    if cex:
-                        e['cex'] = cex[0].strip()[:2500]
+                    p2 = subprocess.run(['cargo', 'kani', '-Z', 'concrete-playback', '--concrete-playback=inplace', '--output-format', 'terse',
+                                         '--harness', h['name']], cwd=d, capture_output=True, text=True, env=env, timeout=1200)
+                    src_h = open(os.path.join(d, 'src', 'verif_kani.rs')).read()
+                    tests = re.findall(r'(?s)(#\[test\]\s*fn (kani_concrete_playback_\w+)\(\).*?\n}\n)', src_h)
+                    if tests:
+                        e['cex'] = tests[0][0].strip()[:2500]
+                        p3 = subprocess.run(['cargo', 'kani', 'playback', '-Z', 'concrete-playback', '--', tests[0][1]],
+                                            cwd=d, capture_output=True, text=True, env=env, timeout=1200)
+                        t3 = p3.stdout + p3.stderr
+                        e['replay'] = {'test': tests[0][1], 'reproduced': ('FAILED' in t3 or 'panicked' in t3) and 'test result' in t3,
+                                       'output_tail': t3[-1200:]}
+                    else:
+                        e['cex_error'] = 'no concrete playback test generated: ' + (p2.stdout + p2.stderr)[-300:]
                 except Exception as ex:
                     e['cex_error'] = str(ex)[:200]
             out['harnesses'].append(e)
